@@ -175,6 +175,40 @@ pub fn c12_case(text: &[u8], out: &mut Vec<Violation>) -> u64 {
 					if folded != rest.iter().map(|s| s.len()).sum::<usize>() {
 						probs.push("fold differs".to_string());
 					}
+					// consumers an iterator may override on its own (rfold, try_fold, ...): each must see
+					// exactly the remaining segments
+					let want_rev: Vec<Vec<u8>> = rest.iter().rev().cloned().collect();
+					let rfolded = mk_it().rfold(Vec::new(), |mut a: Vec<Vec<u8>>, s| {
+						a.push(s.as_bytes().to_vec());
+						a
+					});
+					if rfolded != want_rev {
+						probs.push("rfold differs".to_string());
+					}
+					if mk_it().rev().count() != rest.len() {
+						probs.push(format!("rev().count() = {}, want {}", mk_it().rev().count(), rest.len()));
+					}
+					if mk_it().rev().last().map(|s| s.as_bytes().to_vec()) != rest.first().cloned() {
+						probs.push("rev().last() differs".to_string());
+					}
+					let mut each: Vec<Vec<u8>> = Vec::new();
+					mk_it().for_each(|s| each.push(s.as_bytes().to_vec()));
+					if each != rest {
+						probs.push("for_each differs".to_string());
+					}
+					let mut each_rev: Vec<Vec<u8>> = Vec::new();
+					mk_it().rev().for_each(|s| each_rev.push(s.as_bytes().to_vec()));
+					if each_rev != want_rev {
+						probs.push("rev().for_each differs".to_string());
+					}
+					let tf: Result<usize, ()> = mk_it().try_fold(0usize, |a, _| Ok(a + 1));
+					let trf: Result<usize, ()> = mk_it().try_rfold(0usize, |a, _| Ok(a + 1));
+					if tf != Ok(rest.len()) || trf != Ok(rest.len()) {
+						probs.push(format!("try_fold / try_rfold count {:?} / {:?}, want {}", tf, trf, rest.len()));
+					}
+					if mk_it().rfind(|_| true).map(|s| s.as_bytes().to_vec()) != rest.last().cloned() || mk_it().find(|_| true).map(|s| s.as_bytes().to_vec()) != rest.first().cloned() {
+						probs.push("find / rfind differs".to_string());
+					}
 					let (lo, hi) = mk_it().size_hint();
 					if lo > rest.len() || hi.map(|h| h < rest.len()).unwrap_or(false) {
 						probs.push(format!("size_hint ({lo}, {:?}) excludes {}", hi, rest.len()));
